@@ -170,6 +170,9 @@ def gen_sendonly_exec(r, xid, tp):
     if r.random() < 0.4:
         lines.append("Z %d" % r.choice([8192, 16384]))
         sizes, nrecv = [r.choice([500, 1000, 2000]) for _ in range(r.randint(1, 3))], 12
+    elif r.random() < 0.3:
+        # single sends far larger than a message (the kernel may treat large writes differently)
+        sizes, nrecv = [r.choice([131072, 150000, 262144, 399999]) for _ in range(r.randint(2, 5))], 60
     else:
         # default buffers: up to a megabyte still queued in the kernel when the sender closes
         sizes, nrecv = [65535] * r.randint(4, 16), 40
